@@ -344,6 +344,32 @@ def main_for(prop, roots, repo_path, tier, seed):
             npur += 1
             run.violation('%s-A4' % prop, f.file, f.func, f.construct,
                           'decode must depend on the instruction word (and the architectural IT / carry state) only: ' + f.message)
+    # memoised decode results: a stored-and-returned result in any function on the decode path (the dispatcher, the
+    # decoders, from_bitarray, ArmV6.decode_instruction / emulate_cycle), or a caching decorator on one of them
+    from .. import memo
+    import ast as _ast
+
+    def on_decode_path(rel, qual):
+        return '/opcodes/' in rel or qual.split('.')[-1] in ('decode_instruction', 'from_bitarray', 'emulate_cycle',
+                                                                'fetch_instruction')
+    for rel, qual, loc, why in memo.find_memos(repo):
+        if on_decode_path(rel, qual):
+            npur += 1
+            run.violation('%s-A4' % prop, rel, qual, 'memo ' + loc,
+                          '%s returns a decode result it stored in %s during an earlier call, and %s: the class / operands of a '
+                          'word then depend on what was decoded before (instruction set, IT state, carry at that time), not on '
+                          'the word and the current state' % (qual, loc, why))
+    for m in repo.modules.values():
+        for node in _ast.walk(m.tree):
+            if isinstance(node, _ast.FunctionDef) and on_decode_path(m.relpath, node.name):
+                for d in node.decorator_list:
+                    dn = _ast.unparse(d.func if isinstance(d, _ast.Call) else d)
+                    if dn.split('.')[-1] in ('lru_cache', 'cache', 'cached_property', 'memoize', 'memoized'):
+                        npur += 1
+                        run.violation('%s-A4' % prop, m.relpath, node.name, 'decorator @' + dn,
+                                      '%s is memoised on its arguments, but its result also depends on state it reads (current '
+                                      'instruction set, ITSTATE, APSR.C, architecture version): a word decoded once keeps that '
+                                      'decoding when the state has changed' % node.name)
     run.instance('%s-A4' % prop, 'decode-layer statelessness', obligations=2, ok=(npur == 0),
                  sample={'rule': 'no run-time write to module/class-level state in decoders, encodings, bits_ops, shift; '
                                  'emulate_cycle executes from_bitarray(decode(fetch()))'})
